@@ -287,6 +287,11 @@ HMC_STEP_FAIL = "Failed to take step within maximum allowed attempts"
 StepExhausted = rctx.StepExhausted
 
 
+class StepSizeOverflow(StepExhausted):
+    """The give-up error of a HamiltonianChain whose step size has overflowed to infinity (known finding F3, the
+    step-size selector's variant of the proposal-width overflow): the chain can never step again."""
+
+
 def _guard_hmc(fn, *a, **k):
     try:
         return fn(*a, **k)
@@ -312,12 +317,18 @@ def _budgeted(h, n_steps, fn):
 
 def _dead_chain(h, op, e):
     """HamiltonianChain's give-up error is legitimate for a hopeless step size, but not when the
-    tuning state itself has become NaN: such a chain can never take a step again."""
+    tuning state itself has become NaN: such a chain can never take a step again.  A step size of
+    +inf is the overflow of known finding F3 (every proposal accepted on a flat posterior inside
+    reflecting bounds, the step size doubled at every check): reported as such."""
     eps = getattr(getattr(h.chain, "ES", None), "epsilon", None)
     try:
         bad = eps is not None and not np.isfinite(float(eps))
+        overflow = bad and float(eps) == float("inf")
     except Exception:  # noqa
-        bad = False
+        bad = overflow = False
+    if overflow:
+        rctx.get().stats["probe_hmc_step_size_overflow"] += 1
+        raise StepSizeOverflow() from e
     if bad:
         raise LibRaised(op, ValueError("the chain gave up ('%s') and its step size is now %r: no further step is possible"
                                        % (HMC_STEP_FAIL, eps))) from e
@@ -354,6 +365,20 @@ def runaway_violation(h, op, exc):
         pass
     return dict(invariant="op.runaway", key=dict(cause=cause, sampler=h.kind),
                 detail="%s: %r did not complete within its evaluation budget (%s); cause: %s" % (h.kind, op, exc, cause))
+
+
+def op_interrupted_advance(h, m, k):
+    """advance(m) during which the k-th posterior evaluation raises; the caller catches the error and keeps the
+    sampler.  Returns True if the failure fired (False: the run needed fewer than k evaluations)."""
+    c = rctx.get()
+    c.eval_failures[h.target.tag] = int(k)
+    try:
+        op_advance(h, m)
+        return False
+    except rctx.InjectedFailure:
+        return True
+    finally:
+        c.eval_failures[h.target.tag] = None
 
 
 def op_exchange(h, position, L, copy=True):
